@@ -57,6 +57,9 @@ class Driver:
         self.infos = {}  # (host, name.lower()) -> ServiceInfo most recently handed to the API
         self.listeners = {}  # (host, id) -> RecordingListener
         self.lookups = []  # dicts
+        self.first_infos = {}
+        self.stalls = []  # (t_from, t_until, host) injected process stalls
+        self._op_queue = {}  # host -> API calls issued while its process was stalled, in order
         self.op_log = []  # (op index, op, api entry or None)
         self.hooks = {}  # op kind -> callable(op) for check-specific ops
 
@@ -74,8 +77,29 @@ class Driver:
             return
         if "p" in op and kind != "peer" and op["p"] not in self.w.peers:
             return
+        if "h" in op and kind not in ("host", "stall", "crash", "restart") and not op.get("_drained"):
+            q = self._op_queue.get(op["h"])
+            if q or self.w.loop.stalls.get(op["h"], 0.0) > self.w.now:
+                # the application lives in the stalled process: its API calls happen when the process runs again, in
+                # the order in which they were issued
+                if q is None:
+                    q = self._op_queue[op["h"]] = []
+                if not q:
+                    self.w.loop.call_at(self.w.loop.stalls[op["h"]] + 1e-9, self._drain_ops, op["h"])
+                q.append((i, op))
+                return
         entry = fn(op)
         self.op_log.append((i, op, entry))
+
+    def _drain_ops(self, hname):
+        until = self.w.loop.stalls.get(hname, 0.0)
+        if until > self.w.now + 1e-7:
+            self.w.loop.call_at(until + 1e-9, self._drain_ops, hname)
+            return
+        q = self._op_queue.get(hname) or []
+        while q:
+            i, op = q.pop(0)
+            self._run_op(i, dict(op, _drained=True))
 
     # ---- endpoints
     def op_host(self, op):
@@ -94,6 +118,7 @@ class Driver:
             return None
         info = mk_info(op["svc"])
         self.infos[(h.name, info.name.lower())] = info
+        self.first_infos.setdefault((h.name, info.name.lower()), info)
         kw = {}
         if op.get("allow_name_change"):
             kw["allow_name_change"] = True
@@ -134,6 +159,10 @@ class Driver:
         if not h.alive:
             return None
         info = self.infos.get((h.name, op["name"].lower()))
+        if op.get("stale"):
+            # the application still holds the ServiceInfo it registered first and unregisters through that one,
+            # although the service was updated with a new object since
+            info = self.first_infos.get((h.name, op["name"].lower()), info)
         if info is None:
             return None
         e = self.w.spawn(h, "unregister", lambda: h.azc.async_unregister_service(info), op["name"])
@@ -233,6 +262,17 @@ class Driver:
             self.w.log("heal", tuple(names))
 
         self.w.loop.call_at(self.w.now + op["dur"], heal)
+
+    def op_stall(self, op):
+        """The host's process is descheduled for op['dur'] seconds: nothing of it runs, its sockets buffer."""
+        w = self.w
+        if op["h"] not in w.hosts:
+            return None
+        w.loop.stall(op["h"], w.now + op["dur"])
+        w.net.fault_counts["stall"] = w.net.fault_counts.get("stall", 0) + 1
+        w.log("stall", op["h"], op["dur"])
+        self.stalls.append((w.now, w.now + op["dur"], op["h"]))
+        return None
 
     def op_nop(self, op):
         return None
